@@ -193,7 +193,7 @@ func diffClasses(want, got string, tokenLevelOnly, fine bool) []diffClass {
 	if want == got {
 		return nil
 	}
-	return collapseSwallow(diffClassesRaw(want, got, tokenLevelOnly, fine, false), want, got)
+	return collapseSwallow(diffClassesRaw(want, got, tokenLevelOnly, fine, false), want, got, false)
 }
 
 // diffClassesIgnoringTrail is diffClasses without the comparison of the trivia
@@ -202,7 +202,20 @@ func diffClassesIgnoringTrail(want, got string) []diffClass {
 	if want == got {
 		return nil
 	}
-	return collapseSwallow(diffClassesRaw(want, got, false, false, true), want, got)
+	sw := commentSwallows(want, got)
+	// Give both texts the same trailing trivia (the longest common prefix of
+	// their trails), so that nothing after the last significant token counts.
+	if A, ok := viewOf(want); ok {
+		if B, ok := viewOf(got); ok {
+			ta, tb := want[A.LastSigEnd:], got[B.LastSigEnd:]
+			n := 0
+			for n < len(ta) && n < len(tb) && ta[n] == tb[n] {
+				n++
+			}
+			want, got = want[:A.LastSigEnd+n], got[:B.LastSigEnd+n]
+		}
+	}
+	return collapseSwallow(diffClassesRaw(want, got, false, false, true), want, got, sw)
 }
 
 func diffClassesRaw(want, got string, tokenLevelOnly, fine, ignoreTrail bool) []diffClass {
@@ -339,8 +352,9 @@ func diffClassesRaw(want, got string, tokenLevelOnly, fine, ignoreTrail bool) []
 // tokens in the middle of a swallowed run). They are folded into one class;
 // dropped `,` / `;` separators are kept because the printer also elides
 // those on its own.
-func collapseSwallow(ds []diffClass, want, got string) []diffClass {
-	sw := commentSwallows(want, got)
+func collapseSwallow(ds []diffClass, want, got string, force bool) []diffClass {
+	ds = foldCommentMoves(ds, want, got)
+	sw := force || commentSwallows(want, got)
 	for _, d := range ds {
 		if strings.HasPrefix(d.Class, "token-swallowed-by-comment") {
 			sw = true
@@ -354,7 +368,8 @@ func collapseSwallow(ds []diffClass, want, got string) []diffClass {
 	var first map[string]any
 	for _, d := range ds {
 		cat := classCategory(d.Class)
-		keep := cat == "whitespace" || cat == "eof" || d.Class == "token-dropped: `,`" || d.Class == "token-dropped: `;`" || d.Class == "comment-interior-whitespace-changed"
+		atEnd := d.Detail != nil && d.Detail["at"] == "end"
+		keep := cat == "whitespace" || cat == "eof" || (!atEnd && (d.Class == "token-dropped: `,`" || d.Class == "token-dropped: `;`")) || d.Class == "comment-interior-whitespace-changed"
 		if keep {
 			out = append(out, d)
 			continue
@@ -548,4 +563,83 @@ func commentSwallows(want, got string) bool {
 		}
 	}
 	return check(B.Trail)
+}
+
+// foldCommentMoves replaces the per-gap comment classes (a comment missing
+// here, an extra comment there, a different comment at the same place) by what
+// happened to the comments globally: "comment-lost" when some comment of want
+// occurs nowhere in got, "comment-moved" when all comments survive but sit in
+// different gaps, "comment-duplicated-or-invented" when got has comments want
+// does not have.
+func foldCommentMoves(ds []diffClass, want, got string) []diffClass {
+	isLocal := func(c string) bool {
+		return c == "comment-dropped" || c == "comment-added" || c == "comment-text-changed" || strings.Contains(c, "rewritten")
+	}
+	found := false
+	for _, d := range ds {
+		if isLocal(d.Class) {
+			found = true
+		}
+	}
+	if !found {
+		return ds
+	}
+	A, okA := viewOf(want)
+	B, okB := viewOf(got)
+	if !okA || !okB {
+		return ds
+	}
+	norm := func(s string) string { return strings.Join(strings.Fields(s), " ") }
+	count := func(v tokView) map[string]int {
+		m := map[string]int{}
+		add := func(items []gapItem) {
+			for _, it := range items {
+				if it.Comment {
+					m[norm(it.Text)]++
+				}
+			}
+		}
+		for _, t := range v.Toks {
+			add(t.Lead)
+		}
+		add(v.Trail)
+		return m
+	}
+	ca, cb := count(A), count(B)
+	lost, extra := "", ""
+	for k, n := range ca {
+		if cb[k] < n && (lost == "" || k < lost) {
+			lost = k
+		}
+	}
+	for k, n := range cb {
+		if ca[k] < n && (extra == "" || k < extra) {
+			extra = k
+		}
+	}
+	var out []diffClass
+	var first map[string]any
+	var folded []string
+	for _, d := range ds {
+		if isLocal(d.Class) {
+			folded = append(folded, d.Class)
+			if first == nil {
+				first = d.Detail
+			}
+			continue
+		}
+		out = append(out, d)
+	}
+	det := map[string]any{"folded_classes": folded, "first_detail": first}
+	switch {
+	case lost != "":
+		det["a_lost_comment"] = lost
+		out = append(out, diffClass{"comment-lost", det})
+	case extra != "":
+		det["an_extra_comment"] = extra
+		out = append(out, diffClass{"comment-duplicated-or-invented", det})
+	default:
+		out = append(out, diffClass{"comment-moved", det})
+	}
+	return out
 }
